@@ -226,9 +226,11 @@ def work_core(task):
 
 
 # Contexts that hold on every stack (or bind a name nobody reads): P <context> must be P, not only in what a dump of
-# the stack shows but in everything that can be computed from it afterwards.
+# the stack shows but in everything that can be computed from it afterwards.  (Not `?(dup == dup)`: an infix
+# comparison reads its operands through names, and a name bound to a block applies it -- with a block on top that
+# context runs the block.  Thorough tier, 9 false alarms, corrected.)
 INERT = ["let Xx := 0;", "let Xx := \"s\";", "let Xx := [];", "?(0)", "?(drop)", "?(drop drop)", "!(0 1 ?eq)", "!(drop 0 1 ?eq)",
-         "[1] drop", "[] drop", "[dup] drop", "(0 == 0)", "(\"a\" != \"b\")", "?(0 == 0)", "!(0 == 1)", "?(dup == dup)",
+         "[1] drop", "[] drop", "[dup] drop", "(0 == 0)", "(\"a\" != \"b\")", "?(0 == 0)", "!(0 == 1)", "?(dup type == T_CONST || true)",
          "let Xx Yy := 1 2;", "?(let Zz := 1;)", "(0 == 0) (1 == 1)"]
 BINARY = {G.C: ["add", "sub", "mul"], G.S: ["add", "?find", "!find", "?starts", "!starts", "?ends", "!ends"],
           G.Q: ["add", "?find", "!find", "?starts", "!starts", "?ends", "!ends"]}
